@@ -11,7 +11,7 @@ from harness import core
 from harness.props import _emission_common as EC
 
 MANIFEST_ENTRY = {
-    "text": "Lean theorems C02_calendar_days / C02_partial prove the leak-wise identity emitted + mitigated = baseline emitted, mitigated >= 0 and != 0 only after a program repair, for every start, duration, delay, tag schedule and horizon (induction over days on an invariant of the emission state machine); program totals: C02_totals (day counts), C02_totals_weighted (rate-weighted volumes, each leak with its own rate) and C02_totals_all (Props/C03.lean: all leaks of a program, non-repairable ones via C03_nonrepairable); C02_counterexample proves the full statement false for intermittent sources (known finding F4: mitigation counts calendar days) and C02_counterexample_final_day exhibits the second mechanism (F4c: the day an intermittent emission ends is never counted as emitting). The model is tied to the real RepairableEmission/IntermittentRepairableEmission/Component/Source classes by differential correspondence on a structured-exhaustive (persistent and intermittent kinds, one/two tags, reporting delays {0,2}, reachable starts only) + random case set on every run, and the property's clauses are evaluated directly on the implementation's program and no-LDAR summaries; for intermittent leaks the emitted days of both runs are recomputed from the on/off pattern alone and the known-finding signatures are emitted only when the discrepancy is exactly the non-emitting mitigated days plus/minus the uncounted final days - anything else is a violation (C02:identity:intermittent:other). Hardening stages on every run: same-process history (colliding ids, both orders), several emissions from one shared delay/cost list and coverage dicts (inputs deep-equal afterwards), deep copies and pickle round trips of real Components (a program on one copy must not leak into the next; pinned table of copy hooks / class-level containers as an obligation), the same cases under eight first simulated days (New Year, Feb 29, day-of-year 366, a start on Dec 31, one year later; model side: run_shift / C04_period_shift), marker-like method names (finding C02-natural: a method named `natural` is never credited), whole runs over boundary periods (not ending Dec 31, straddling New Year and Feb 29, 1- and 2-day periods), two simulations, process pool with the baseline program last; exceptions of the code under test and call-site shapes the adapter cannot read become broken obligations, never harness errors.",
+    "text": "Lean theorems C02_calendar_days / C02_partial prove the leak-wise identity emitted + mitigated = baseline emitted, mitigated >= 0 and != 0 only after a program repair, for every start, duration, delay, tag schedule and horizon (induction over days on an invariant of the emission state machine); program totals: C02_totals (day counts), C02_totals_weighted (rate-weighted volumes, each leak with its own rate) and C02_totals_all (Props/C03.lean: all leaks of a program, non-repairable ones via C03_nonrepairable); C02_counterexample proves the full statement false for intermittent sources (known finding F4: mitigation counts calendar days) and C02_counterexample_final_day exhibits the second mechanism (F4c: the day an intermittent emission ends is never counted as emitting). The model is tied to the real RepairableEmission/IntermittentRepairableEmission/Component/Source classes by differential correspondence on a structured-exhaustive (persistent and intermittent kinds, one/two tags, reporting delays {0,2}, reachable starts only) + random case set on every run, and the property's clauses are evaluated directly on the implementation's program and no-LDAR summaries; for intermittent leaks the emitted days of both runs are recomputed from the on/off pattern alone and the known-finding signatures are emitted only when the discrepancy is exactly the non-emitting mitigated days plus/minus the uncounted final days - anything else is a violation (C02:identity:intermittent:other). Hardening stages on every run: same-process history (colliding ids, both orders), several emissions from one shared delay/cost list and coverage dicts (inputs deep-equal afterwards), deep copies and pickle round trips of real Components (a program on one copy must not leak into the next; pinned table of copy hooks / class-level containers as an obligation), the same cases under eight first simulated days (New Year, Feb 29, day-of-year 366, a start on Dec 31, one year later; model side: run_shift / C04_period_shift), marker-like method names (finding C02-natural: a method named `natural` is never credited), whole runs over boundary periods (not ending Dec 31, straddling New Year and Feb 29, 1- and 2-day periods), two simulations, process pool with the baseline program last; exceptions of the code under test and call-site shapes the adapter cannot read become broken obligations, never harness errors. Layer 3 (every run): the methods of the four emission classes are translated from the current source to Lean (harness/extract/py2lean.py, emission_src.py -> Generated/EmissionSrc.lean) and Props/EmissionTie.lean + EmissionOnSource.lean are re-checked: each translated method equals the model's function through the abstraction, iterating them is Emission.run (run_tie), and the C02/C03/C04 statements hold of the translated code; a method outside the translated subset is a note, a failing tie theorem a broken obligation.",
     "design_ref": "DESIGN.md 5.2, 4.1",
     "note": "trusted: Lean kernel + propext/Classical.choice/Quot.sound; the hand-written model (tied by sampled correspondence, not proof); harness adapters; volumes compared as integer day counts (rate 1.0, x86.4 exact division checked); float rates, CSV formatting and the summary aggregation (C14) outside this check",
     "technique": "Lean 4 invariant proof over the emission state machine + differential correspondence with the real classes + direct oracle",
@@ -207,7 +207,7 @@ def run(ctx):
         ctx.sample({"case": list(c), "impl": il.split(" | ")[0]})
     EC.shared_component_stage(ctx, lambda ctx, case, res, base, w: oracle_case(ctx, case, res, base))
     EC.hardening_stages(ctx, results, lambda ctx, case, res, base, origin: oracle_case(ctx, case, res, base))
-    EC.wholerun_stage(ctx, 4, 12, wholerun_record, per_result=wholerun_totals)
+    EC.wholerun_stage(ctx, 5, 21, wholerun_record, per_result=wholerun_totals)
     EC.finish_hit_rates(ctx)
     for k in ("wholerun_records_with_program_repair", "wholerun_records_with_mit>0"):
         ctx.counts.setdefault(k, 0)
